@@ -168,6 +168,11 @@ package jsonrpc
 //@   at store wsConn.incomingErr: assert flag-cleared-only-with-new-connection: $val == nil && conn != nil && heldclass("wsConn.writeLk") && heldclass("wsConn.errLk") [C03,C05]
 //@   at store wsConn.conn: assert swaps-in-the-dialled-connection: $val == conn && conn != nil [C05,C14]
 //@   ensures nothing-resent: calls(sendRequest) == 0 [C04]
+//@   ghost ctxErr : U = nil
+//@   ghost ctxDone : Bool = false
+//@   at ret (context.Context).Err: set ctxErr = $result0
+//@   at recv ctx.Done(): set ctxDone = true
+//@   ensures gives-up-only-when-the-client-context-is-done: calls(nextMessage) == 0 && spawnedCount(nextMessage) == 0 ==> ctxErr != nil || ctxDone [C05,C03]
 //@   at go nextMessage: assert reader-restarted-after-swap: calls(setupPings) == 1 && nolocks() [C05,C03]
 
 //@ func (*wsConn).handleOutChans
@@ -372,7 +377,11 @@ package jsonrpc
 //@   at call handle: assert handler-gets-the-request-context: $1 == ctx [C06]
 //@   at call handle: assert batch-elements-buffered: (ost == 0) == isfn($3, "(*handler).handleReader$1") [C09]
 //@   loop 1 invariant array-open: (ost == 2 || ost == 3) && wroteElem == (ost == 3) [C09]
+//@   loop 1 invariant every-element-dispatched-or-rejected: calls(rpcError) + calls(handle) == rangeindex + 1 [C09]
 //@   ensures wellformed-output: ost == 0 || ost == 1 || ost == 5 [C09]
+//@   ensures every-body-is-answered-or-dispatched: calls(rpcError) + calls(handle) >= 1 [C09,C10]
+//@   at call io.LimitReader: assert reads-exactly-one-byte-beyond-the-limit: $1 == s.maxRequestSize + 1 && $0 == r [C10]
+//@   at call (*bytes.Buffer).ReadFrom: assert whole-body-buffered-before-anything-else: calls(rpcError) == 0 && calls(handle) == 0 [C10]
 //@   nopanic [C10]
 
 //@ func (*handler).handle
@@ -401,6 +410,7 @@ package jsonrpc
 //@   at call withLazyWriter: assert reply-echoes-id-and-version: resp.ID == req.ID && resp.Jsonrpc == "2.0" && $0 == w [C09,C02]
 //@   at call withLazyWriter: assert reply-only-for-id-bearing: req.ID != nil [C09,C04]
 //@   at call withLazyWriter: assert error-reply-carries-no-result: resp.Error != nil ==> resp.Result == nil [C11,C09]
+//@   at store JSONRPCError.Code: assert internal-failures-use-the-generic-code: $val == 1 [C11]
 //@   at call createError: assert error-built-from-the-handlers-error-output: calls(doCall) == 1 && handler.errOut != -1 [C11]
 //@   at call doCall: assert dispatches-selected-handler: $1 == selected(s, req.Method).handlerFunc && $0 == req.Method && resolvable(s, req.Method) [C12,C01]
 //@   at call doCall: assert arity-checked-before-call: handler.hasRawParams || (defined(ps) && len(ps) == handler.nParams) [C12,C09]
@@ -655,7 +665,7 @@ package jsonrpc
 //@   at ret makeRpcFunc: set lastProxy = $result0
 //@   at call makeRpcFunc: assert builds-proxy-from-this-field: calls(makeRpcFunc) == calls(Set) [C04,C01]
 //@   at call (reflect.Value).Set: assert every-field-gets-its-own-proxy: $1 == lastProxy && calls(makeRpcFunc) == calls(Set) + 1 [C04,C01]
-//@   loop 2 invariant one-proxy-per-field: calls(makeRpcFunc) == calls(Set) [C04,C01]
+//@   loop 2 invariant one-proxy-per-field: calls(makeRpcFunc) == calls(Set) && i >= 0 [C04,C01]
 
 //@ func httpClient$1
 //@   at call (*net/http.Request).WithContext: assert request-carries-the-callers-context: $1 == ctx [C06]
@@ -746,7 +756,8 @@ package jsonrpc
 
 //@ func (*JSONRPCError).Error
 //@   modifies nothing
-//@   ensures user-codes-give-message-verbatim: !(e.Code >= -32768 && e.Code <= -32000) ==> result == e.Message [C11]
+//@   ensures user-codes-give-message-verbatim: !(e.Code >= -32768 && e.Code <= -32000) ==> result == e.Message && calls(Sprintf) == 0 [C11]
+//@   ensures reserved-codes-are-prefixed: (e.Code >= -32768 && e.Code <= -32000) ==> calls(Sprintf) == 1 [C11]
 
 //@ func (*param).UnmarshalJSON
 //@   safety
@@ -900,6 +911,9 @@ package jsonrpc
 
 //@ func (*RPCConnectionError).Error
 //@   modifies nothing
+//@   safety
+//@   nopanic [C05]
+//@   at call (error).Error: assert wrapped-error-consulted-only-when-present: e.err != nil [C05]
 
 //@ func (*RPCConnectionError).Unwrap
 //@   modifies nothing
